@@ -3,7 +3,7 @@
    property statement; they look only at the events - never at the model's state.
 
    Vocabulary (shared with the model, Model.v): [LReqSet t] is the moment a request takes effect,
-   [LReqNotify t] the step in which request_reload returns, [LAcqCache t] the first step of an
+   [obs = RReq] marks the step in which request_reload returns, [LAcqCache t] the first step of an
    acquire_env, [obs = REnv e] on a non-drop step means "acquire_env returned a guard for e in this
    step", [born e] counts the requests that had taken effect when e was created / its templates were
    cleared.  Requests are numbered 1, 2, ... in the order in which they take effect. *)
@@ -17,9 +17,10 @@ Fixpoint lookup (t : Z) (l : list (Z * Z)) : option Z :=
 
 Definition tid_of (l : label) : Z :=
   match l with
-  | LReqSet t | LReqNotify t | LAcqCache t | LAcqCheck t _ | LAcqMark t | LAcqFast t
-  | LCreStart t | LCreEnd t _ | LAcqRestore t | LDrop t => t
+  | LReqSet t | LReqNotify t _ | LAcqCache t | LAcqCheck t | LFreshEnd t _ | LOnCbEnd t | LAcqMark t | LAcqFast t
+  | LCreStart t | LCreEnd t _ | LAcqRestore t | LDrop t | LBlocked t => t
   end.
+Definition is_drop (l : label) : bool := match l with LDrop _ => true | _ => false end.
 
 (* ---- 1. no lost request ------------------------------------------------------------------------
    "Once request_reload() has returned, the next acquire_env() hands out an environment that was
@@ -30,24 +31,28 @@ Definition tid_of (l : label) : Z :=
 Record nl := { nset : Z; pend : list (Z * Z); retmax : Z; need : list (Z * Z) }.
 Definition nl_init : nl := {| nset := 0; pend := []; retmax := 0; need := [] |}.
 
+(* effect of the step itself ... *)
+Definition nl_lab (x : nl) (l : label) : nl :=
+  match l with
+  | LReqSet t => {| nset := nset x + 1; pend := (t, nset x + 1) :: pend x; retmax := retmax x; need := need x |}
+  | LAcqCache t => {| nset := nset x; pend := pend x; retmax := retmax x; need := (t, retmax x) :: need x |}
+  | _ => x
+  end.
+(* ... then of what returned in it *)
 Definition nl_step (x : nl) (e : event) : option nl :=      (* None = violated *)
-  match lab e with
-  | LReqSet t => Some {| nset := nset x + 1; pend := (t, nset x + 1) :: pend x; retmax := retmax x; need := need x |}
-  | LReqNotify t =>
-      Some {| nset := nset x; pend := pend x;
-              retmax := match lookup t (pend x) with Some i => Z.max (retmax x) i | None => retmax x end;
-              need := need x |}
-  | LAcqCache t => Some {| nset := nset x; pend := pend x; retmax := retmax x; need := (t, retmax x) :: need x |}
-  | LDrop _ => Some x
-  | l =>
-      match obs e with
-      | REnv en =>
-          match lookup (tid_of l) (need x) with
-          | Some r => if r <=? born en then Some x else None
-          | None => Some x
-          end
-      | _ => Some x
+  let x1 := nl_lab x (lab e) in
+  match obs e with
+  | RReq =>
+      Some {| nset := nset x1; pend := pend x1;
+              retmax := match lookup (tid_of (lab e)) (pend x1) with Some i => Z.max (retmax x1) i | None => retmax x1 end;
+              need := need x1 |}
+  | REnv en =>
+      if is_drop (lab e) then Some x1 else
+      match lookup (tid_of (lab e)) (need x1) with
+      | Some r => if r <=? born en then Some x1 else None
+      | None => Some x1
       end
+  | _ => Some x1
   end.
 
 Fixpoint nl_check (x : nl) (tr : list event) : bool :=
@@ -95,9 +100,8 @@ Definition sp_step (x : sp) (e : event) : option sp :=
   | LReqSet _ | LAcqRestore _ => Some {| pending := true; have_env := have_env x; just := just x |}
   | LAcqMark _ => Some {| pending := false; have_env := have_env x; just := just x |}
   | LAcqCache _ => Some {| pending := pending x; have_env := have_env x; just := negb (have_env x) |}
-  | LAcqCheck _ cb =>
-      Some {| pending := pending x; have_env := have_env x;
-              just := just x || pending x || match cb with Some true => true | _ => false end |}
+  | LAcqCheck _ => Some {| pending := pending x; have_env := have_env x; just := just x || pending x |}
+  | LFreshEnd _ ans => Some {| pending := pending x; have_env := have_env x; just := just x || ans |}
   | LCreStart _ => if just x then Some x else None
   | LAcqFast _ => match obs e with REnv _ => if just x then Some x else None | _ => Some x end
   | LCreEnd _ ok => Some {| pending := pending x; have_env := have_env x || ok; just := just x |}
